@@ -17,7 +17,7 @@ from ..runner import call_limited, exc_str
 ID = "C12"
 LEVEL = "exploration"
 RULE = (
-    "pairs: 12 polygon pairs (crossing 2..8 times, nested, disjoint, unbounded operand, hollow/two-component operands) and 6 curved "
+    "pairs: 13 polygon pairs (crossing 2..8 times, nested, disjoint, unbounded operand, hollow/two-component operands, a plate with a 1% tab crossed by a small chip) and 6 curved "
     "pairs; maps T = translate o rotate o scale with translations {0, (1e3,-2e3), (1e6,1e6)}, angles {0, 90, 30, 137 deg}, scale "
     "factors {1e-3, 1e-2, 1, 1e3, 1e5} (60 maps; angle 0/90 maps are applied exactly in Fractions to integer data). For each (pair, "
     "map): T(A) op T(B) for op in | & - ^ and ~T(A) on the real code; membership of T(w) in the result for every arrangement-face "
@@ -46,6 +46,12 @@ POLY_PAIRS = [
     ("hollow,dia", ["PC", "hollow", "int"], L("P.dia#int")),
     ("two,sqA", ["PC", "two", "int"], L("P.sqA#int")),
     ("xtwo,L", ["PC", "xtwo", "int"], L("P.L#int")),
+    # fine detail: a unit plate with a 0.02 x 0.01 tab crossed by a 0.01 x 0.03 chip (short edges cross)
+    (
+        "tab,chip",
+        ["V", [[0, 0], [1, 0], [1, "1/2"], ["51/50", "1/2"], ["51/50", "51/100"], [1, "51/100"], [1, 1], [0, 1]]],
+        ["V", [["201/200", "49/100"], ["203/200", "49/100"], ["203/200", "13/25"], ["201/200", "13/25"]]],
+    ),
 ]
 CURVED_PAIRS = [
     ("c16,c16b", L("Q.c16"), L("Q.c16b")),
